@@ -3,7 +3,7 @@
    Print Assumptions. The model (model/PIdl.v) is hand-written from proto/idl.go, proto/descriptor.go and
    internal/util/fieldmap.go and tied to the code by the differential check (model/Check15.v, harness/c15.go). *)
 From Coq Require Import ZArith List Bool Lia.
-From DG Require Import CaseFormat PIdl Check15 PIdlProofs.
+From DG Require Import CaseFormat PIdl Check15 PIdlProofs PIdlMemoProofs.
 Import ListNotations.
 Local Open Scope Z_scope.
 
@@ -124,6 +124,49 @@ Theorem C15_memo_by_simple_name_refuted :
      match ms with (_, i, _) :: _ => q_follow (q_nodes st) path i | [] => None end).
 Proof. exact memo_by_simple_name_refuted. Qed.
 Print Assumptions C15_memo_by_simple_name_refuted.
+
+(* ---- the memo of parseMessage (anchor: compilingCache), for ALL schemas, states, fuels -------------- *)
+
+(* Whatever the memo key: the descriptor attached for a requested message type was built from a declaration
+   with the SAME memo key (invariant of the traversal: memo hit, miss, recursion, overwrite by the other target). *)
+Theorem C15_memo_attaches_same_key :
+  forall keyf tbl fuel target m st i st',
+    cache_inv keyf st -> qparse keyf tbl fuel target m st = (i, st') -> i <> -1 ->
+    exists nm fs, nth_error (q_nodes st') (Z.to_nat i) = Some (nm, fs) /\ keyf nm = keyf m.
+Proof. exact qparse_attaches_same_key. Qed.
+Print Assumptions C15_memo_attaches_same_key.
+
+(* ... for the request and response root of every method of a whole parse (empty memo at the start) *)
+Theorem C15_memo_methods_same_key :
+  forall keyf tbl fuel ms,
+    let r := qmethods keyf tbl fuel ms in Forall (entry_ok keyf (q_nodes (snd r))) (fst r).
+Proof. exact qmethods_attach_same_key. Qed.
+Print Assumptions C15_memo_methods_same_key.
+
+(* keyed by the SIMPLE name (the code): only the last component of the attached declaration is the requested one *)
+Theorem C15_memo_simple_key_only_simple_name :
+  forall tbl fuel target m st i st',
+    cache_inv key_simple st -> qparse key_simple tbl fuel target m st = (i, st') -> i <> -1 ->
+    exists nm fs, nth_error (q_nodes st') (Z.to_nat i) = Some (nm, fs) /\ last_comp nm = last_comp m.
+Proof. exact memo_simple_name_attaches_same_simple_name. Qed.
+Print Assumptions C15_memo_simple_key_only_simple_name.
+
+(* keyed by the FULLY-QUALIFIED name (the proposed fix): for every valid schema whose fully-qualified names are
+   distinct strings, the attached descriptor is the one built from the requested declaration itself *)
+Theorem C15_memo_full_key_attaches_requested :
+  forall mode s fuel target m st i st',
+    schema_ok mode s = true -> NoDup (map key_full (map fst (msg_table s))) ->
+    declared (msg_table s) m -> names_declared (msg_table s) (q_nodes st) -> cache_inv key_full st ->
+    qparse key_full (msg_table s) fuel target m st = (i, st') -> i <> -1 ->
+    exists fs, nth_error (q_nodes st') (Z.to_nat i) = Some (m, fs).
+Proof. exact memo_full_name_attaches_requested. Qed.
+Print Assumptions C15_memo_full_key_attaches_requested.
+
+(* the message table of a valid schema is closed: every message reference points to a declared message *)
+Theorem C15_msg_table_closed :
+  forall mode s, schema_ok mode s = true -> tbl_closed (msg_table s).
+Proof. exact msg_table_closed. Qed.
+Print Assumptions C15_msg_table_closed.
 
 (* ---- lookups --------------------------------------------------------------------------------------- *)
 
@@ -264,4 +307,14 @@ Proof.
               Some (map (elab_field (symtab_of witness_schema (main_file witness_schema)) [w_p; w_Req])
                         [w_fd 1 [97] 0 w_A; w_fd 2 [98] 0 w_B])) by (vm_compute; reflexivity).
   rewrite E. split; [exact N|]. split; [exact K|]. vm_compute. repeat split; eexists; split; reflexivity.
+Qed.
+
+Example C15_witness_memo_hypotheses :
+  NoDup (map key_full (map fst (msg_table witness_schema))) /\
+  declared (msg_table witness_schema) [w_p; w_Req] /\
+  names_declared (msg_table witness_schema) (q_nodes {| q_cache := []; q_nodes := [] |}) /\
+  cache_inv key_full {| q_cache := []; q_nodes := [] |}.
+Proof.
+  split; [apply (nodupb_sound _ _ bytes_eqb_eq); vm_compute; reflexivity|].
+  split; [vm_compute; tauto|]. split; [intros i nm fs H; destruct i; discriminate | apply cache_inv_empty].
 Qed.
